@@ -165,6 +165,10 @@ func judge(cfg tcfg, steps []tstep, obs []tobs) *judgement {
 			}
 			class += "|limit-from-MaxFunc"
 		}
+		if cfg.KeyView {
+			// one input class, whatever else is true of the history
+			class = "key-is-view-of-request-memory"
+		}
 		if v.gap {
 			ks.hadGap = true
 		}
